@@ -191,7 +191,7 @@ func (r *Reconciler) reconcileInitialize(ctx context.Context, proposal *configap
 
 			log.Infof("Updating Configuration '%s' status", proposal.TargetID)
 			config.Status.Proposed.Index = proposal.TransactionIndex
-			err := r.configurations.UpdateStatus(ctx, config)
+			err := r.updateConfigurationStatus(ctx, config)
 			if err != nil {
 				log.Warnf("Failed reconciling Transaction %d Proposal to target '%s'", proposal.TransactionIndex, proposal.TargetID, err)
 				return controller.Result{}, err
@@ -406,7 +406,7 @@ func (r *Reconciler) reconcileAbort(ctx context.Context, proposal *configapi.Pro
 			config.Status.Applied.Index == proposal.Status.PrevIndex {
 			config.Status.Committed.Index = proposal.TransactionIndex
 			config.Status.Applied.Index = proposal.TransactionIndex
-			if err := r.configurations.UpdateStatus(ctx, config); err != nil {
+			if err := r.updateConfigurationStatus(ctx, config); err != nil {
 				log.Warnf("Failed reconciling Transaction %d Proposal to target '%s'", proposal.TransactionIndex, proposal.TargetID, err)
 				return controller.Result{}, err
 			}
@@ -417,14 +417,14 @@ func (r *Reconciler) reconcileAbort(ctx context.Context, proposal *configapi.Pro
 			}
 		} else if config.Status.Committed.Index == proposal.Status.PrevIndex {
 			config.Status.Committed.Index = proposal.TransactionIndex
-			if err := r.configurations.UpdateStatus(ctx, config); err != nil {
+			if err := r.updateConfigurationStatus(ctx, config); err != nil {
 				log.Warnf("Failed reconciling Transaction %d Proposal to target '%s'", proposal.TransactionIndex, proposal.TargetID, err)
 				return controller.Result{}, err
 			}
 		} else if config.Status.Applied.Index == proposal.Status.PrevIndex &&
 			config.Status.Committed.Index >= proposal.TransactionIndex {
 			config.Status.Applied.Index = proposal.TransactionIndex
-			if err := r.configurations.UpdateStatus(ctx, config); err != nil {
+			if err := r.updateConfigurationStatus(ctx, config); err != nil {
 				log.Warnf("Failed reconciling Transaction %d Proposal to target '%s'", proposal.TransactionIndex, proposal.TargetID, err)
 				return controller.Result{}, err
 			}
@@ -786,7 +786,7 @@ func (r *Reconciler) reconcileApply(ctx context.Context, proposal *configapi.Pro
 				// Update the Configuration's applied index to indicate this Proposal was applied even though it failed.
 				log.Infof("Updating applied index for Configuration '%s' to %d in term %d", config.ID, proposal.TransactionIndex, config.Status.Mastership.Term)
 				config.Status.Applied.Index = proposal.TransactionIndex
-				if err := r.configurations.UpdateStatus(ctx, config); err != nil {
+				if err := r.updateConfigurationStatus(ctx, config); err != nil {
 					log.Warnf("Failed reconciling Transaction %d Proposal to target '%s'", proposal.TransactionIndex, proposal.TargetID, err)
 					return controller.Result{}, err
 				}
@@ -849,6 +849,13 @@ func (r *Reconciler) reconcileApply(ctx context.Context, proposal *configapi.Pro
 	default:
 		return controller.Result{}, nil
 	}
+}
+
+// updateConfigurationStatus updates the status of the Configuration without writing back the applied path values:
+// they were not changed, and a copy read before a newer change was applied would overwrite the newer values.
+func (r *Reconciler) updateConfigurationStatus(ctx context.Context, config *configapi.Configuration) error {
+	config.Status.Applied.Values = nil
+	return r.configurations.UpdateStatus(ctx, config)
 }
 
 func (r *Reconciler) updateProposalStatus(ctx context.Context, proposal *configapi.Proposal) error {
